@@ -51,12 +51,43 @@ def apply_edits(dst, edits):
   return None
 
 
+def seeded_entries():
+  """Independent seeded changes kept under /verif/seeded/<name>/ (patch.diff +
+  meta.json): each must be reported by the check of its property."""
+  out = []
+  d = os.path.join(VERIF, 'seeded')
+  if not os.path.isdir(d):
+    return out
+  for name in sorted(os.listdir(d)):
+    mp = os.path.join(d, name, 'meta.json')
+    pp = os.path.join(d, name, 'patch.diff')
+    if os.path.exists(mp) and os.path.exists(pp):
+      meta = json.load(open(mp))
+      out.append(dict(id='seeded-' + name, prop=meta['property'], kind='mutant',
+                      patch=pp, edits=[], rule=None))
+  return out
+
+
+def apply_patch(dst, patch):
+  r = subprocess.run(['git', 'apply', '--unsafe-paths', '--directory=' + dst, patch],
+                     capture_output=True, text=True, cwd=dst)
+  if r.returncode:
+    r = subprocess.run(['patch', '-p1', '-s', '-i', patch], capture_output=True,
+                       text=True, cwd=dst)
+    if r.returncode:
+      return 'patch does not apply: %s' % (r.stdout + r.stderr)[-200:]
+  return None
+
+
 def run_one(entry, root):
   tmp = tempfile.mkdtemp(prefix='vsf_')
   try:
     dst = os.path.join(tmp, 'repo')
     make_copy(root, dst)
-    err = apply_edits(dst, entry['edits'])
+    if entry.get('patch'):
+      err = apply_patch(dst, entry['patch'])
+    else:
+      err = apply_edits(dst, entry['edits'])
     if err:
       return dict(id=entry['id'], status='skipped', detail=err)
     env = dict(os.environ, VERIF_EVIDENCE_DIR=os.path.join(tmp, 'ev'))
@@ -83,7 +114,7 @@ def run_one(entry, root):
 
 
 def run(prop=None, jobs=16, root='/repo', only=None, quiet=False):
-  entries = [e for e in CATALOGUE
+  entries = [e for e in CATALOGUE + seeded_entries()
              if (prop is None or e['prop'] == prop) and
              (only is None or e['id'] == only)]
   results = []
